@@ -15,8 +15,6 @@ import (
 	"sort"
 	"strings"
 
-	bo "github.com/benoitkugler/webrender/html/boxes"
-
 	"verif/internal/engine"
 )
 
@@ -284,5 +282,3 @@ func (c *check) Describe(u int64) any {
 			"display(e3)": d3.String(), "display(e4)": "all values within 3 deviations", "first": first.html}
 	}
 }
-
-var _ = bo.BlockT
